@@ -13,6 +13,7 @@ import warnings
 from fractions import Fraction
 
 from . import c08_docs as docs
+from . import c08_codec as codec
 from .common import Spec, Driver, GEN, write_if_changed
 
 # ---------------------------------------------------------------------------------------------
@@ -309,14 +310,31 @@ class C08(Spec):
                   "time_unparse_parse", "ids_injective", "ids_wellformed", "ids_wellformed_bound_sharp",
                   "ids_not_reserved", "ids_disjoint_from_common", "above_common_ne", "chna_entry_roundtrip",
                   "chna_excluded_points", "handlers_wellformed", "handlers_table_nontrivial",
-                  "common_ids_in_reserved_range", "C08_partial")
-    ) + ("Earverif.TimeFormat.dvd_pow_placesBound",)
+                  "common_ids_in_reserved_range", "handlers_codec_roundtrip", "handlers_roundtrip_values",
+                  "handlers_codec_roundtrip_pure", "handlers_pure_count", "timeCodec_roundtrip_dec", "timeCodec_roundtrip_frac", "C08_partial")
+    ) + ("Earverif.TimeFormat.dvd_pow_placesBound",) + tuple(
+        "Earverif.XmlCodec." + t
+        for t in ("stages_roundtrip", "codec_roundtrip", "codec_roundtrip_pure", "toXml_decl_congr",
+                  "keysOK_ofRows", "fieldOK_ofRow", "intCodec_roundtrip", "boolCodec_roundtrip", "floatCodec_roundtrip",
+                  "stringCodec_roundtrip", "trackUIDRefCodec_roundtrip_str", "enumCodecs_roundtrip")) + tuple(
+        "Earverif.XmlCustom." + t
+        for t in ("frequency_roundtrip", "jumpPosition_roundtrip", "jumpPosition_excluded",
+                  "speakerPosition_roundtrip", "speakerPosition_bad_lock", "dumpBound_steps"))
     trusted_base = (
         "models Earverif/Model/TimeFormat.lean, GenIds.lean, Chna.lean are hand transliterations of "
         "time_format.parse_time/unparse_time, generate_ids.generate_ids, AudioID.asByteArray and the row decoding in "
         "Bw64Reader._read_chna_chunk; Python int/Fraction/Decimal(28 digits)/str.format/struct semantics as modelled",
-        "NOT modelled (searched only): xml.py element layer (declarative combinators and ~40 hand-written handlers), "
-        "'{:.5f}' float printing, lxml parsing/serialisation, reference resolution in adm.py, chna.py "
+        "models Earverif/Model/XmlCodec.lean (Attribute, AttrElement, ListElement, HandleText, TypeAttribute, "
+        "ElementParser.__init__/parse/to_xml over an abstract XML tree with (namespace, local name) tags), "
+        "XmlLeaf.lean (StringType/RefType/TrackUIDRefType/BoolType/IntType/TimeType/TimeTypeV1/FloatType-on-the-1e-5-"
+        "grid/TypeAttribute enum codecs; table row -> model property) and XmlCustom.lean (handle_frequency, "
+        "handle_jump_position, parse_speaker_position and their to_xml) are hand transliterations of xml.py, tied by "
+        "the combinator / handler correspondence on every run; the extractor of the property tables "
+        "(harness/c08.py parser_rows) is trusted",
+        "NOT modelled (parameters of the theorems, searched only): the remaining hand-written CustomElement / "
+        "GenericElement handlers (listed by name in the evidence notes), '{:.5f}' printing of arbitrary doubles and "
+        "float()/int()/Fraction() on spellings other than the ones the writer produces, lxml parsing/serialisation, "
+        "namespaces-by-namespace visiting order of xpath(), reference resolution in adm.py, chna.py "
         "populate_chna_chunk/load_chna_chunk",
     )
     assumptions = (
@@ -331,6 +349,11 @@ class C08(Spec):
         "empty interaction range, jumpPosition flag false with an interpolationLength, referenceScreen None, "
         "ADM.version None with AXML) — these degenerate points are evaluated once per run and recorded, not asserted",
         "CHNA strings are 7-bit",
+        "combinator model: handler keys pairwise distinct (checked on the extracted tables by handlers_wellformed); "
+        "integer strings are optionally signed ASCII digit strings, floats are printed with exactly five decimals; "
+        "hand-written handlers must leave the declarative arguments alone and succeed on their own output "
+        "(FrameOK, a hypothesis); DirectSpeakers screenEdgeLock values valid for their coordinate; jumpPosition "
+        "round-trips only with the flag set or without interpolationLength (jumpPosition_excluded)",
     )
     rule = (
         "leaf correspondence: generated time strings (valid shapes + near-misses), times (decimal/fractional/"
@@ -358,8 +381,11 @@ class C08(Spec):
         self._corr_ids(ctx, drv, rng, 40 if q else 300)
         t2 = time.time()
         self._corr_chna(ctx, drv, rng, 800 if q else 10000)
-        ctx.notes.append("correspondence seconds: times %.1f, ids %.1f, chna %.1f (started %.1f s after check start)"
-                         % (t1 - t0, t2 - t1, time.time() - t2, t0 - ctx.t0))
+        t3 = time.time()
+        self._corr_codec(ctx, drv, rng, 40 if q else 600, 12 if q else 150)
+        self._corr_handlers(ctx, drv, rng, 300 if q else 6000)
+        ctx.notes.append("correspondence seconds: times %.1f, ids %.1f, chna %.1f, combinators %.1f (started %.1f s "
+                         "after check start)" % (t1 - t0, t2 - t1, t3 - t2, time.time() - t3, t0 - ctx.t0))
 
     def _corr_times(self, ctx, drv, rng, n):
         from ear.fileio.adm.time_format import FractionalTime, parse_time, unparse_time
@@ -518,6 +544,167 @@ class C08(Spec):
                     ctx.hit("CHNA row does not round-trip", {"AudioID": e}, {"read_back": p, "expected": want},
                             ["c08-chna-row-roundtrip"])
 
+    def _corr_codec(self, ctx, drv, rng, n_synth, n_docs):
+        """combinator layer: real ElementParser.parse / to_xml vs Earverif.XmlCodec on the same abstract trees"""
+        import lxml.etree as ET
+        from ear.fileio.adm import xml as X
+        from ear.fileio.adm.elements.version import BS2076Version
+
+        parsers = real_parsers()
+        table = {nm: (p, parser_rows(p)) for nm, p in parsers}
+        customs = sorted({r[11] for _, (p, rows) in table.items() for r in rows if r[0] in ("CustomElement", "GenericElement")})
+        ctx.notes.append("hand-written handlers kept as parameters of handlers_codec_roundtrip (%d): %s"
+                         % (len(customs), "; ".join(customs)))
+        ctx.count("corr:combinators:hand-written-handlers(parameters)", len(customs))
+        tstrs = [t for t in gen_time_strings(rng, 25) if all(ord(c) < 128 for c in t) and "\n" not in t]
+        tstrs += [u[3:] for u in (py_unparse(t, bool(af)) for t, af in gen_times(rng, 120)) if u.startswith("ok ")]
+
+        def head(rows):
+            return " ; ".join(codec.row_line(r) for r in rows)
+
+        cases = []  # (mode, parser name, payload, tree or object values)
+        # (1) synthetic trees
+        usable = [nm for nm, (p, rows) in table.items() if codec.usable_for_synthetic(rows)]
+        for nm in usable:
+            p, rows = table[nm]
+            for _ in range(n_synth):
+                cases.append(("xp-synthetic", nm, codec.synthetic_tree(rng, p.adm_name, rows, tstrs)))
+        # (2) real objects from generated documents: to_xml, then parse of what the real to_xml wrote
+        for i in range(n_docs):
+            version = 1 + (i % 2)
+            adm, _ = docs.make_doc(rng.randrange(10 ** 9), version, rng.choice([1, 2, 3]))
+            h = X.MainElementHandler(BS2076Version(version))
+            objs = []
+            for me in h.main_elements:
+                for el in me.get_func(adm):
+                    if not el.is_common_definition:
+                        objs.append(("v%d/%s" % (version, me.name), el))
+            for cf in adm.audioChannelFormats:
+                if not cf.is_common_definition:
+                    for bf in cf.audioBlockFormats:
+                        objs.append(("v%d/audioBlockFormat:%s" % (version, cf.type.name), bf))
+                        for co in getattr(bf, "matrix", []):
+                            objs.append(("v%d/coefficient" % version, co))
+            for el in list(adm.audioProgrammes) + list(adm.audioContents):
+                for lm in el.loudnessMetadata:
+                    objs.append(("v%d/loudnessMetadata" % version, lm))
+            for pr in adm.audioProgrammes:
+                if pr.referenceScreen is not X.default_screen and pr.referenceScreen is not None:
+                    objs.append(("audioProgrammeReferenceScreen", pr.referenceScreen))
+            for ob in adm.audioObjects:
+                its = [ob.audioObjectInteraction]
+                for avs in ob.alternativeValueSets:
+                    objs.append(("v%d/alternativeValueSet" % version, avs))
+                    its.append(avs.audioObjectInteraction)
+                for it in its:
+                    if it is not None:
+                        objs.append(("v%d/audioObjectInteraction" % version, it))
+            for nm, ob in objs:
+                cases.append(("xt-real", nm, ob))
+        lines, meta = [], []
+        for mode, nm, payload in cases:
+            p, rows = table[nm]
+            if mode == "xp-synthetic":
+                lines.append("xp ; %s ; %s" % (head(rows), " ".join(codec.tree_tokens(payload))))
+                meta.append((mode, nm, payload, None))
+            else:
+                parent = ET.Element("parent")
+                with warnings.catch_warnings():
+                    warnings.simplefilter("ignore")
+                    el = p.to_xml(parent, payload)
+                real_tree = codec.from_lxml(el)
+                vals = codec.obj_values(rows, payload)
+                lines.append("xt ; %s ; %s %d %s" % (head(rows), codec.enc(p.adm_name), len(vals),
+                                                     " ".join("%s %s" % (codec.enc(a), codec.val_tokens(v)) for a, v in vals)))
+                meta.append(("xt-real", nm, payload, real_tree))
+                lines.append("xp ; %s ; %s" % (head(rows), " ".join(codec.tree_tokens(real_tree))))
+                meta.append(("xp-real", nm, real_tree, None))
+        outs = drv.run(lines)
+        caps = {}
+        for (mode, nm, payload, real_tree), m in zip(meta, outs):
+            p, rows = table[nm]
+            ctx.count("corr:combinators:%s:%s" % (mode, nm.split("/")[-1]))
+            if mode == "xt-real":
+                want = codec.filter_declarative(real_tree, rows)
+                try:
+                    got, _ = codec.parse_tree_tokens(m.split())
+                except Exception:
+                    got = m
+                ctx.case(("xt", nm, repr(want)), True,
+                         sample={"to_xml": nm, "declarative_part": repr(want)[:300]} if len(want[2]) > 2 else None)
+                if got != want:
+                    ctx.disagree("ElementParser.to_xml (declarative part) vs Earverif.XmlCodec.toXml",
+                                 {"parser": nm, "object": repr(payload)[:400]}, repr(got)[:600], repr(want)[:600])
+                else:
+                    ctx.validated()
+            else:
+                cap = caps.get(nm) or caps.setdefault(nm, codec.capture_parser(p))
+                want = codec.py_parse_kwargs(cap, rows, payload)
+                got = codec.model_kwargs(m, rows)
+                ctx.count("corr:combinators:%s-result:%s" % (mode, "rejected" if want == "E" else "kwargs"))
+                ctx.case(("xp", nm, repr(payload)), want != "E")
+                if got != want:
+                    ctx.disagree("ElementParser.parse (declarative kwargs) vs Earverif.XmlCodec.parseKw",
+                                 {"parser": nm, "tree": repr(payload)[:600]}, repr(got)[:600], repr(want)[:600])
+                else:
+                    ctx.validated()
+
+    def _corr_handlers(self, ctx, drv, rng, n):
+        """the three exactly modelled hand-written handler pairs: real functions vs Earverif.XmlCustom"""
+        vals = codec.gen_handler_values(rng, n)
+        outs = drv.run([codec.handler_value_line(w, v) for w, v in vals])
+        lines2, meta2 = [], []
+        for (which, value), m in zip(vals, outs):
+            want = codec.py_handler_to_xml(which, value)
+            try:
+                got, _ = codec.parse_tree_tokens(m.split())
+            except Exception:
+                got = m
+            ctx.count("corr:handler:%s:to_xml" % which)
+            ctx.case(("hx", which, repr(value)), True, sample={"handler": which, "value": repr(value), "xml": repr(want)[:300]})
+            if got != want:
+                ctx.disagree("%s to_xml vs Earverif.XmlCustom" % which, repr(value), repr(got)[:500], repr(want)[:500])
+            else:
+                ctx.validated()
+            # direct predicate on the real code: the value comes back from what was written (inside the stated
+            # domain: valid locks; jumpPosition flag set or no interpolationLength)
+            back = codec.py_handler_parse(which, want)
+            if which == "freq":
+                expect = "%s %s" % (codec.opt(value[0]), codec.opt(value[1]))
+                inside = True
+            elif which == "jump":
+                expect = "%d %s" % (1 if value[0] else 0, codec.opt(value[1]))
+                inside = value[0] or value[1] is None
+                if not inside:
+                    ctx.count("excluded-point:handler:jumpPosition-flag-false-with-interpolationLength="
+                              + ("lost" if back == "0 ~" else back))
+            else:
+                kind, bs, h, v = value
+                expect = "%s %s %s %s" % (kind, " ".join("%d %s %s" % (a, codec.opt(mn), codec.opt(mx)) for a, mn, mx in bs),
+                                          "~" if h is None else codec.enc(h), "~" if v is None else codec.enc(v))
+                inside = h in (None, "left", "right") and v in (None, "top", "bottom")
+                if not inside:
+                    ctx.count("excluded-point:handler:invalid-screenEdgeLock=" + ("refused" if back == "E" else "accepted"))
+            if inside and back != expect:
+                ctx.hit("hand-written handler does not round-trip", {"handler": which, "value": repr(value)},
+                        {"written": repr(want)[:600], "read_back": back, "expected": expect}, ["c08-handler-roundtrip-" + which])
+        trees = codec.gen_handler_trees(rng, n)
+        lines = []
+        for which, t in trees:
+            ns, name, attrs, text, kids = t
+            t2 = (None, name, attrs, text, codec.visiting_order(kids) if which == "ds" else kids)
+            lines.append("hp %s %s" % (which, " ".join(codec.tree_tokens(t2))))
+        outs = drv.run(lines)
+        for (which, t), m in zip(trees, outs):
+            ns, name, attrs, text, kids = t
+            want = codec.py_handler_parse(which, (None, name, attrs, text, kids))
+            ctx.count("corr:handler:%s:parse:%s" % (which, "rejected" if want == "E" else "value"))
+            ctx.case(("hp", which, repr(kids)), want != "E")
+            if m != want:
+                ctx.disagree("%s parse vs Earverif.XmlCustom" % which, repr(kids)[:600], m, want)
+            else:
+                ctx.validated()
+
     # ---- search: documents through the real pipeline -------------------------------------------
     def search(self, ctx, deep):
         rng = ctx.rng
@@ -613,48 +800,77 @@ class C08(Spec):
 SPEC = C08()
 
 REGISTRY = dict(
-    text="PARTIAL: Lean theorems prove, for all inputs, the leaf layers of the property on hand-written models tied "
-    "to the code on every run: ADM time strings (Earverif.C08.time_roundtrip_decimal — every 0 <= t < 100 h that is a "
-    "terminating decimal within Decimal's 28 significant digits is printed and parsed back exactly, in both versions; "
+    text="PARTIAL: Lean theorems prove, for all inputs, on hand-written models tied to the code on every run: "
+    "(1) ADM time strings (Earverif.C08.time_roundtrip_decimal — every 0 <= t < 100 h that is a terminating decimal "
+    "within Decimal's 28 significant digits is printed and parsed back exactly, both versions; "
     "time_roundtrip_fractional — FractionalTime numerator/denominator preserved incl. non-normalised 2S4; "
-    "time_unparse_parse — string fixed point on the image of unparse_time), ID generation (ids_injective for all "
-    "element counts; ids_wellformed under explicit bounds, with ids_wellformed_bound_sharp showing the 61 440th "
-    "object gets AO_10000; ids_not_reserved: ATU_00000000 is never generated; ids_disjoint_from_common: counters "
-    ">= 0x1001) and the 40-byte CHNA row (chna_entry_roundtrip: both reference styles, AC_ padding, absent pack). "
-    "Regenerated tables (every ElementParser's property list for both versions, extracted from the real "
-    "MainElementHandler on each run) carry the decide obligations handlers_wellformed (handler keys and constructor "
-    "arguments pairwise distinct, elided default = constructor default) and common_ids_in_reserved_range. "
-    "C08_partial is the conjunction of the leaf claims. NOT proved, only searched: the XML element layer (declarative "
-    "Attribute/AttrElement/ListElement combinators and ~40 hand-written handlers), five-decimal float printing, lxml, "
-    "reference resolution, populate_chna_chunk/load_chna_chunk — covered by generated documents over every element "
-    "class and optional attribute for BS.2076-1 and -2 run through the real write/read pipeline (equivalence, byte "
-    "fixed point, CHNA transfer, ID checks).",
-    note="Trusted: Lean kernel, hand transliteration of time_format / generate_ids / CHNA row codec + correspondence "
-    "harness; Python Fraction/Decimal/str.format/struct semantics. Quantifier limits: t < 100 h, ASCII digits, "
+    "time_unparse_parse — string fixed point on the image of unparse_time); (2) ID generation (ids_injective for all "
+    "element counts; ids_wellformed under explicit bounds with ids_wellformed_bound_sharp: the 61 440th object gets "
+    "AO_10000; ids_not_reserved; ids_disjoint_from_common) and the 40-byte CHNA row (chna_entry_roundtrip); "
+    "(3) the declarative XML combinator layer: Earverif.XmlCodec.codec_roundtrip — for any property table made of "
+    "Attribute/AttrElement/ListElement/HandleText/TypeAttribute entries plus hand-written handlers as framed "
+    "parameters, if the field codecs round-trip on the values carried, keys and arguments are pairwise distinct and "
+    "defaults are elided symmetrically, then ElementParser.parse(to_xml(obj)) gives every declarative argument back "
+    "(codec_roundtrip_pure: the object itself and the same tree again for purely declarative parsers; "
+    "toXml_decl_congr: the declarative output is a fixed point) — instantiated with the handler tables REGENERATED "
+    "from the real MainElementHandler for BS.2076-1 and -2 on every run (handlers_wellformed by decide; "
+    "handlers_codec_roundtrip / handlers_roundtrip_values / handlers_codec_roundtrip_pure for all 36 parsers), with "
+    "exact leaf codecs (int, bool, string/ref, track-UID ref, time, five-decimal floats, typeDefinition/typeLabel "
+    "enums) proved to round-trip; (4) three hand-written handlers modelled exactly: frequency_roundtrip, "
+    "jumpPosition_roundtrip (+ jumpPosition_excluded: flag unset loses interpolationLength), "
+    "speakerPosition_roundtrip (DirectSpeakers position with min/max bounds, screenEdgeLock, elided default "
+    "distance). C08_partial is the conjunction of the leaf claims. NOT proved, only searched: the other hand-written "
+    "handlers (parameters; listed in the evidence), five-decimal printing of arbitrary doubles, lxml, reference "
+    "resolution, populate_chna_chunk/load_chna_chunk — covered by generated documents over every element class and "
+    "optional attribute for both versions run through the real write/read pipeline (equivalence, byte fixed point, "
+    "CHNA transfer, ID checks).",
+    note="Trusted: Lean kernel; hand transliterations of time_format / generate_ids / CHNA row codec / xml.py "
+    "combinators / three handlers + correspondence harness (real ElementParser.parse/to_xml and real handler "
+    "functions vs the Lean driver on synthetic trees and on trees written for generated documents); the table "
+    "extractor; Python Fraction/Decimal/str.format/struct semantics. Quantifier limits: t < 100 h, ASCII digits, "
     "<= 0xEFFF elements per top-level kind, <= 0xFF track formats per stream, printable-grid values; degenerate "
     "composite defaults (all-zero positionOffset, empty interaction range, jumpPosition flag false with "
     "interpolationLength, referenceScreen None) are recorded as excluded points, not asserted.",
-    technique="Lean 4 proofs about leaf codec models (long-division decimal expansion, injective min-width hex "
-    "formatter, byte layout) + differential correspondence with the real functions + generated-document search on "
-    "the real AXML/CHNA pipeline",
+    technique="Lean 4 proofs about codec models (long-division decimal expansion, injective min-width hex formatter, "
+    "byte layout, dictionary-of-handlers parser with loop invariants, regenerated tables decided by the kernel) + "
+    "differential correspondence with the real functions + generated-document search on the real AXML/CHNA pipeline",
     design_ref="DESIGN.md section 4, C08",
 )
 
 
 # ---------------------------------------------------------------------------------------------
-# table extraction (appended: used by C08.extract)
+# table extraction (used by C08.extract and by the combinator correspondence)
 
 
 def _lean_str(s):
     return '"' + s.replace("\\", "\\\\").replace('"', '\\"') + '"'
 
 
-def extract_tables():
-    """property lists of every ElementParser reachable from MainElementHandler for BS.2076-1 and -2, and the id
-    ranges of the shipped common definitions. Returns Lean source."""
-    import attr
+def real_parsers():
+    """every ElementParser reachable from MainElementHandler for BS.2076-1 and -2: [(name, parser)]"""
     from ear.fileio.adm import xml as X
     from ear.fileio.adm.elements.version import BS2076Version
+
+    parsers = []
+    for v in (1, 2):
+        h = X.MainElementHandler(BS2076Version(v))
+        for me in h.main_elements:
+            parsers.append(("v%d/%s" % (v, me.name), me.handler))
+        for t, bh in h.make_block_format_handlers().items():
+            parsers.append(("v%d/audioBlockFormat:%s" % (v, t.name), bh))
+        parsers.append(("v%d/loudnessMetadata" % v, h.loudness_handler))
+        parsers.append(("v%d/audioObjectInteraction" % v, h.make_audioObjectInteraction_handler()))
+        parsers.append(("v%d/alternativeValueSet" % v, h.make_alternativeValueSet_handler()))
+        parsers.append(("v%d/coefficient" % v, h.make_matrix_coefficient_handler()))
+    parsers.append(("audioProgrammeReferenceScreen", X.screen_handler))
+    parsers.append(("zoneExclusion", X.zone_exclusion_handler))
+    return parsers
+
+
+def parser_rows(parser):
+    """(kind, adm, arg, attr, type, handler default, class default, required, parse_only, label, enum, handler)"""
+    import attr
+    from ear.fileio.adm import xml as X
 
     type_names = {id(getattr(X, n)): n for n in ("StringType", "IntType", "FloatType", "SecondsType", "BoolType",
                                                  "TimeTypeV1", "TimeType", "RefType", "VersionType", "TrackUIDRefType")}
@@ -675,59 +891,52 @@ def extract_tables():
                 return "<factory>"
         return repr(d)
 
-    def rows(parser):
-        out = []
-        cls = parser.cls
-        if getattr(cls, "__name__", "") == "make_audio_programme":
-            from ear.fileio.adm.elements import AudioProgramme as cls  # the factory only fills in the default screen
-        for p in parser.properties:
-            kind = type(p).__name__
-            adm = getattr(p, "adm_name", None)
-            if kind == "TypeAttribute":
-                for a in (p.definition_name, p.label_name):
-                    out.append((kind, a, p.arg_name, p.arg_name, "-", "-", "-", bool(p.required), False))
-                continue
-            arg = getattr(p, "arg_name", None)
-            att = getattr(p, "attr_name", arg)
-            ty = type_names.get(id(getattr(p, "type", None)), "-")
-            declarative = kind in ("Attribute", "AttrElement")
-            hdef = repr(p.default) if declarative else "-"
-            cdef = class_default(cls, att) if declarative else "-"
-            out.append((kind, adm or "-", arg or "-", att or "-", ty, hdef, cdef, bool(getattr(p, "required", False)),
-                        bool(getattr(p, "parse_only", False))))
-        return out
+    def fname(f):
+        return "None" if f is None else getattr(f, "__qualname__", type(f).__name__)
 
-    parsers = []
-    for v in (1, 2):
-        h = X.MainElementHandler(BS2076Version(v))
-        for me in h.main_elements:
-            parsers.append(("v%d/%s" % (v, me.name), me.handler))
-        for t, bh in h.make_block_format_handlers().items():
-            parsers.append(("v%d/audioBlockFormat:%s" % (v, t.name), bh))
-        parsers.append(("v%d/loudnessMetadata" % v, h.loudness_handler))
-        parsers.append(("v%d/audioObjectInteraction" % v, h.make_audioObjectInteraction_handler()))
-        parsers.append(("v%d/alternativeValueSet" % v, h.make_alternativeValueSet_handler()))
-        parsers.append(("v%d/coefficient" % v, h.make_matrix_coefficient_handler()))
-    parsers.append(("audioProgrammeReferenceScreen", X.screen_handler))
-    parsers.append(("zoneExclusion", X.zone_exclusion_handler))
+    out = []
+    cls = parser.cls
+    if getattr(cls, "__name__", "") == "make_audio_programme":
+        from ear.fileio.adm.elements import AudioProgramme as cls  # the factory only fills in the default screen
+    for p in parser.properties:
+        kind = type(p).__name__
+        adm = getattr(p, "adm_name", None)
+        arg = getattr(p, "arg_name", None)
+        att = getattr(p, "attr_name", arg)
+        ty = type_names.get(id(getattr(p, "type", None)), "-")
+        declarative = kind in ("Attribute", "AttrElement")
+        hdef = repr(p.default) if declarative else "-"
+        cdef = class_default(cls, att) if declarative else "-"
+        label, enum, handler = "", [], "-"
+        if kind == "TypeAttribute":
+            adm, label = p.definition_name, p.label_name
+            enum = [(m.name, m.value) for m in p.enum]
+        if kind in ("CustomElement", "GenericElement"):
+            handler = fname(p.handler) + " / " + fname(p.to_xml)
+        out.append((kind, adm or "-", arg or "-", att or "-", ty, hdef, cdef, bool(getattr(p, "required", False)),
+                    bool(getattr(p, "parse_only", False)), label, enum, handler))
+    return out
 
+
+def extract_tables():
+    """property lists of every ElementParser reachable from MainElementHandler for BS.2076-1 and -2, and the id
+    ranges of the shipped common definitions. Returns (Lean source, number of parsers, number of rows)."""
+    parsers = real_parsers()
     L = ["/- GENERATED by harness/c08.py (extract) from ear.fileio.adm.xml — do not edit. -/",
-         "namespace Earverif.Gen.C08", "",
-         "structure Row where", "  kind : String", "  admName : String", "  argName : String", "  attrName : String",
-         "  ty : String", "  handlerDefault : String", "  classDefault : String", "  required : Bool",
-         "  parseOnly : Bool", "  deriving DecidableEq, Repr", ""]
+         "import Earverif.Model.XmlLeaf", "", "namespace Earverif.Gen.C08", "open Earverif.XmlCodec (Row)", ""]
     names = []
     nrows = 0
     for i, (nm, parser) in enumerate(parsers):
-        rs = rows(parser)
+        rs = parser_rows(parser)
         nrows += len(rs)
         dn = "p%d" % i
         names.append((nm, dn))
         L.append("/-- %s (class %s) -/" % (nm, getattr(parser.cls, "__name__", "?")))
         L.append("def %s : List Row := [" % dn)
-        L.append(",\n".join("  ⟨%s, %s, %s, %s, %s, %s, %s, %s, %s⟩" % (
+        L.append(",\n".join("  ⟨%s, %s, %s, %s, %s, %s, %s, %s, %s, %s, [%s], %s⟩" % (
             _lean_str(r[0]), _lean_str(r[1]), _lean_str(r[2]), _lean_str(r[3]), _lean_str(r[4]), _lean_str(r[5]),
-            _lean_str(r[6]), "true" if r[7] else "false", "true" if r[8] else "false") for r in rs))
+            _lean_str(r[6]), "true" if r[7] else "false", "true" if r[8] else "false", _lean_str(r[9]),
+            ", ".join("(%s, %d)" % (_lean_str(n), v) for n, v in r[10]), _lean_str(r[11])) for r in rs))
         L.append("]")
         L.append("")
     L.append("def parsers : List (String × List Row) := [")
